@@ -1,1 +1,2 @@
 import TV.Properties.C12
+import TV.Properties.C20
